@@ -84,6 +84,8 @@ def check(ctx):
     from .c17 import lammps_bounds
     lammps_bounds(ctx, "C01-R7")
     r7_time_text(ctx)
+    r4_overflow(ctx)
+    r2_fields_unconditional(ctx)
     ctx.rule("C01-R6", "in `for i in range(self.n_frames)` loops of savers every per-frame argument of f.write is subscripted by the loop variable")
     reg = F.registry(ctx)
     savers = _savers(ctx)
@@ -568,3 +570,45 @@ def r7_time_text(ctx):
     rd = ctx.py.func(GROF, "GroTrajectoryFile._read_frame")
     ok = any(isinstance(n, ast.Assign) and dotted(n.targets[0]) == "time" and isinstance(n.value, ast.Call) and call_name(n.value) == "float" for n in walk_no_nested(rd))
     ctx.decide(ok, "C01-R7", rd, GROF, "GroTrajectoryFile._read_frame", "time read back with float()", "", "the time stamp is no longer parsed with float()")
+
+
+def r4_overflow(ctx):
+    """mdcrd fields are read back by fixed columns: a value that does not fit its %8.3f field must be refused, never shortened."""
+    MD = "mdtraj/formats/mdcrd.py"
+    fn = ctx.py.func(MD, "MDCRDTrajectoryFile.write")
+    fmts = [n for n in ast.walk(fn) if isinstance(n, ast.Assign) and isinstance(n.value, ast.BinOp) and isinstance(n.value.op, ast.Mod) and isinstance(n.value.left, ast.Constant)
+            and isinstance(n.value.left.value, str) and re.fullmatch(r"%(\d+)\.(\d+)f", n.value.left.value) and isinstance(n.targets[0], ast.Name)]
+    if not fmts:
+        ctx.undecided("C01-R4", fn, MD, "MDCRDTrajectoryFile.write", "coordinate field", "the `%8.3f` field assignment was not found")
+        return
+    for a in fmts:
+        var = a.targets[0].id
+        width = int(re.fullmatch(r"%(\d+)\.(\d+)f", a.value.left.value).group(1))
+        tests = [n for n in ast.walk(fn) if isinstance(n, ast.If) and re.sub(r"\s", "", src(n.test)) in ("len(%s)>%d" % (var, width), "len(%s)!=%d" % (var, width), "%d<len(%s)" % (width, var))]
+        raises = bool(tests) and all(any(isinstance(x, ast.Raise) for x in t.body) for t in tests)
+        cuts = [n for n in ast.walk(fn) if isinstance(n, ast.Subscript) and isinstance(n.value, ast.Name) and n.value.id == var and isinstance(n.slice, ast.Slice)]
+        ctx.decide(raises and not cuts, "C01-R4", tests[0] if tests else a, MD, "MDCRDTrajectoryFile.write", "a coordinate wider than its %d-column field is refused" % width, "",
+                   "a coordinate that does not fit `%s` is %s: the reader takes fixed %d-column slices, so the value read back differs from the one saved (more than the format's precision)"
+                   % (a.value.left.value, "cut with `%s`" % src(cuts[0]) if cuts else "not refused", width))
+
+
+def r2_fields_unconditional(ctx):
+    """A saver hands the writer the trajectory's own per-frame fields: `time=` is self.time (possibly converted), not a value that may be replaced by None."""
+    n_sites = 0
+    mod = ctx.py.mod(TRAJ)
+    for q, fn in sorted(mod.functions.items()):
+        if not (q.startswith("Trajectory.save_") and q.count(".") == 1):
+            continue
+        for c in [n for n in walk_no_nested(fn) if isinstance(n, ast.Call) and call_name(n) in ("f.write",)]:
+            for k in c.keywords:
+                if k.arg != "time":
+                    continue
+                n_sites += 1
+                v = k.value
+                base = v
+                while isinstance(base, ast.Subscript):
+                    base = base.value
+                ok = dotted(base) in ("self.time", "self._time")
+                ctx.decide(ok, "C01-R2", c, TRAJ, q, "time=self.time (the trajectory's own times)", "", "`time=%s`: the times written may differ from the trajectory's (a flag or default decides), so the loaded times differ from the saved ones" % src(v)[:70])
+    if n_sites < 3:
+        raise AnalysisError("only %d `time=` arguments found in the savers" % n_sites)
